@@ -13,13 +13,16 @@ pub enum Ev {
     With(WithClause), Distinct(SelectDistinct), SelExpr(SelectExpr), TRef(TableRef), IndexHints, TableSample, Join(JoinExpr),
     Cond(Seq<char>, ConditionHolder), Expr(SimpleExpr), Union(UnionType, SelectStatement), Order(OrderExpr), FieldOrder(OrderExpr), LimitOffset,
     Lock(LockClause), Iden(DynIden), Window(WindowStatement),
-    Output(Option<ReturningClause>), Returning(Option<ReturningClause>), JoinTy(JoinType), JoinOnEv(JoinOn), ValuesList(Vec<ValueTuple>), FuncName(FunctionCall), FuncArgs(FunctionCall), TRefIden(TableRef), Query(SubQueryStatement), WithOpts(WithClause), WithStart(WithClause), Cte(CommonTableExpression), CteList(WithClause), Materialization(CommonTableExpression), U32Value(u32), FrameEv(Frame), OcKeywords, DoUpdateKw, Excluded(DynIden), OcTarget(Vec<OnConflictTarget>), OcAction(Option<OnConflictAction>), ColRef(ColumnRef), InsertKw(bool), DefaultValues(u32), OnConflict(Option<OnConflict>), Select(SelectStatement), UpdJoin, UpdFrom, UpdCond, UpdColumn(DynIden), UpdOrderBy, UpdLimit, DelOrderBy, DelLimit,
+    Output(Option<ReturningClause>), Returning(Option<ReturningClause>), JoinTy(JoinType), JoinOnEv(JoinOn), ValuesList(Vec<ValueTuple>), FuncName(FunctionCall), FuncArgs(FunctionCall), TRefIden(TableRef), Query(SubQueryStatement), WithOpts(WithClause), WithStart(WithClause), Cte(CommonTableExpression), CteList(WithClause), Materialization(CommonTableExpression), U32Value(u32), F64Text(f64), HintScope(IndexHintScope), FrameEv(Frame), OcKeywords, DoUpdateKw, Excluded(DynIden), OcTarget(Vec<OnConflictTarget>), OcAction(Option<OnConflictAction>), ColRef(ColumnRef), InsertKw(bool), DefaultValues(u32), OnConflict(Option<OnConflict>), Select(SelectStatement), UpdJoin, UpdFrom, UpdCond, UpdColumn(DynIden), UpdOrderBy, UpdLimit, DelOrderBy, DelLimit,
 }
 pub trait VWrite {
     spec fn tr(&self) -> Seq<Ev>;
     fn vpush(&mut self, s: &str) ensures final(self).tr() == old(self).tr().push(Ev::Lit(s@));
 }
 fn vfmt_lit<W: VWrite>(w: &mut W, x: &str) ensures final(w).tr() == old(w).tr().push(Ev::Lit(x@)) { w.vpush(x) }
+// R-fmt `{}` of an f64 (TABLESAMPLE percentage / seed): the std Display text of that number, one event
+#[verifier::external_body]
+fn vfmt_f64<W: VWrite>(w: &mut W, x: &f64) ensures final(w).tr() == old(w).tr().push(Ev::F64Text(*x)) { unimplemented!() }
 
 pub open spec fn lit(s: &str) -> Ev { Ev::Lit(s@) }
 pub proof fn lemma_assoc(a: Seq<Ev>, b: Seq<Ev>, c: Seq<Ev>)
@@ -32,3 +35,7 @@ pub proof fn lemma_assoc(a: Seq<Ev>, b: Seq<Ev>, c: Seq<Ev>)
 pub open spec fn upd_item(u: OnConflictUpdate) -> Seq<Ev> {
     match u { OnConflictUpdate::Column(c) => seq![Ev::Iden(c), lit(" = "), Ev::Excluded(c)], OnConflictUpdate::Expr(c, e) => seq![Ev::Iden(c), lit(" = "), Ev::Expr(e)] }
 }
+
+// TRUSTED (std): a Vec's length is a usize
+#[verifier::external_body]
+pub proof fn axiom_vec_len_fits<T>(v: &Vec<T>) ensures v@.len() <= usize::MAX {}
